@@ -159,6 +159,11 @@ func randomWorld(rng *rand.Rand, focus string) (worldCfg, *budget, probes) {
 	}
 	b.CancelEarly = rng.IntN(4) == 0
 	b.LateRes = rng.IntN(2) == 0
+	// one or two msgs_ack batch layouts per world (keeps the branching small,
+	// the layouts vary across worlds); acks are more frequent than before
+	for k := 1 + rng.IntN(2); k > 0; k-- {
+		b.AckShapes = append(b.AckShapes, ackShapes[rng.IntN(len(ackShapes))])
+	}
 	switch focus {
 	case "C25":
 		b.Travel = mr + 1 + rng.IntN(mr+2)
@@ -252,6 +257,7 @@ func c25Grid() (family, int) {
 		failAt     int
 		half       bool
 		kind       string
+		shape      string
 	}
 	var cases []cse
 	for mr := 1; mr <= 6; mr++ {
@@ -262,10 +268,15 @@ func c25Grid() (family, int) {
 				}
 				for failAt := -1; failAt <= mr; failAt++ {
 					for _, half := range []bool{false, true} {
-						cases = append(cases, cse{mr, ackPos, conc, failAt, half, "ack"})
+						// every case with the plain single-id ack plus one batch layout
+						// (cycled so that every layout meets every grid position class)
+						cases = append(cases, cse{mr, ackPos, conc, failAt, half, "ack", "-"})
+						if ackPos >= 0 {
+							cases = append(cases, cse{mr, ackPos, conc, failAt, half, "ack", ackShapes[1+len(cases)%(len(ackShapes)-1)]})
+						}
 					}
 					if ackPos >= 0 {
-						cases = append(cases, cse{mr, ackPos, conc, failAt, false, "res"})
+						cases = append(cases, cse{mr, ackPos, conc, failAt, false, "res", "-"})
 					}
 				}
 			}
@@ -277,10 +288,14 @@ func c25Grid() (family, int) {
 		cfg.Calls[0].FailSendAt = cs.failAt
 		b := mkBudget(cfg)
 		b.Ack[0], b.Res[0], b.Travel, b.TravelMs = 1, 1, 4*cs.mr+8, []int{1000, 500}
+		b.AckShapes = []string{cs.shape}
 		sc := []string{"start:0"}
 		for k := 0; k <= cs.mr+1; k++ {
 			if cs.ackPos == k {
 				s := cs.kind + ":0"
+				if cs.kind == "ack" && cs.shape != "-" {
+					s += ":" + cs.shape
+				}
 				if cs.concurrent {
 					s += "~"
 				}
